@@ -1,6 +1,7 @@
 // correspondence driver for gmlc/concurrency/DelayedObjects.hpp  (model: coq/Model/DelayedObjectsModel.v)
 //
-// cfg: <nslots>            number of future slots per client thread
+// X = harness payload {long v}: its copy constructor calls vs::user_call(v) (K_CALL v, throw plan), moves are silent.
+// cfg: <nslots> <k>...     number of future slots per client thread; global indices of the copies that throw
 // ops: 0 kind key slot     slot = getFuture(key).share()        kind 0: int key, else string key "n<key>"
 //      1 kind key v        setDelayedValue(key, const X&)
 //      2 kind key v        setDelayedValue(key, X&&)
@@ -8,36 +9,61 @@
 //      4 kind key          isRecognized      5 kind key  isCompleted      6 kind key  finishedWithValue
 //      7 slot              client: slot.wait_for(0s) == ready  (1/0; -2 empty slot)
 //      8 slot              client: slot.get() if ready (value; -1 not ready; -2 empty slot; -3 broken_promise)
-// A std::future_error escaping a library call is logged as K_FAULT and returns -99.
+// A std::future_error escaping a library call is logged as K_FAULT and returns -99; a vs::VThrow (throwing
+// copy) is caught by the runner: K_CATCH.
 // final(): sizes of the four maps, then the container is destroyed on the driver thread
 // (the client threads are done or parked between two critical sections), then one line per held future.
 #include "vstd.hpp"
+#include "vpay.hpp"
 #define std vstd
-#define private public  // harness-side only: lets final() read the map sizes without an event
+#define private public  // harness-side only: lets final() read the maps without an event
 #include "gmlc/concurrency/DelayedObjects.hpp"
 #undef private
 #undef std
 #include "driver.hpp"
 
+// the payload: copying it is user code (a scheduling point inside the critical section, K_CALL v, and a
+// throw point driven by the case's throw plan); moving it is silent
+struct X {
+    long v = 0;
+    X() = default;
+    explicit X(long x): v(x) {}
+    X(const X& o): v(o.v) { vs::user_call(o.v); }
+    X(X&& o) noexcept: v(o.v) {}
+    X& operator=(const X&) = delete;
+    X& operator=(X&& o) noexcept
+    {
+        v = o.v;
+        return *this;
+    }
+};
+
 struct DelayedObjectsComp {
-    using DO = gmlc::concurrency::DelayedObjects<long>;
+    using DO = gmlc::concurrency::DelayedObjects<X>;
     std::unique_ptr<DO> cont;
     size_t nslots;
-    std::vector<std::vector<std::shared_future<long>>> slots;
+    std::vector<std::vector<std::shared_future<X>>> slots;
 
     explicit DelayedObjectsComp(const vs::Case& c):
         cont(new DO()), nslots(c.cfg.empty() ? 0 : (size_t)c.cfg[0]), slots(c.progs.size())
     {
         for (auto& s : slots) s.resize(nslots);
+        vs::plan().reset(c.cfg.size() > 1 ? std::vector<long>(c.cfg.begin() + 1, c.cfg.end()) : std::vector<long>{});
     }
-    static std::string name(long key) { return "n" + std::to_string(key); }
+    // zero-padded: the lexicographic order of the names is the numeric order of the keys (0 <= key < 10^9)
+    static std::string name(long key)
+    {
+        char b[32];
+        std::snprintf(b, sizeof b, "n%09ld", key);
+        return b;
+    }
 
-    static long peek_get(std::shared_future<long>& f)
+    static long peek_get(std::shared_future<X>& f)
     {
         if (!f.valid()) return -2;
         if (f.wait_for(std::chrono::seconds(0)) != std::future_status::ready) return -1;
         try {
-            return f.get();
+            return f.get().v;  // const X&: no copy
         }
         catch (const std::future_error&) {
             return -3;
@@ -49,27 +75,29 @@ struct DelayedObjectsComp {
         switch (o[0]) {
             case 0: {
                 if (o.size() != 4) break;
-                std::shared_future<long> f =
+                std::shared_future<X> f =
                     str ? cont->getFuture(name(o[2])).share() : cont->getFuture((int)o[2]).share();
                 if (o[3] >= 0 && (size_t)o[3] < nslots) slots[tid][(size_t)o[3]] = std::move(f);
                 return 0;
             }
             case 1: {
                 if (o.size() != 4) break;
-                const long v = o[3];
+                const X v(o[3]);
                 if (str) cont->setDelayedValue(name(o[2]), v); else cont->setDelayedValue((int)o[2], v);
                 return 0;
             }
             case 2: {
                 if (o.size() != 4) break;
-                long v = o[3];
+                X v(o[3]);
                 if (str) cont->setDelayedValue(name(o[2]), std::move(v)); else cont->setDelayedValue((int)o[2], std::move(v));
                 return 0;
             }
-            case 3:
+            case 3: {
                 if (o.size() != 2) break;
-                cont->fulfillAllPromises(o[1]);
+                const X v(o[1]);
+                cont->fulfillAllPromises(v);
                 return 0;
+            }
             case 4:
                 if (o.size() != 3) break;
                 return str ? cont->isRecognized(name(o[2])) : cont->isRecognized((int)o[2]);
@@ -95,6 +123,7 @@ struct DelayedObjectsComp {
         }
         return 0;
     }
+    // vs::VThrow (a throwing copy) passes through to the runner (K_CATCH); a std::future_error is a fault
     long op(int tid, const std::vector<long>& o)
     {
         try {
@@ -105,11 +134,35 @@ struct DelayedObjectsComp {
             return -99;
         }
     }
+    // a moved-from promise has no shared state: get_future() says no_state (a live one: future_already_retrieved)
+    template<class M>
+    static long count_stale(M& m)
+    {
+        long n = 0;
+        for (auto& e : m) {
+            try {
+                (void)e.second.get_future();
+            }
+            catch (const std::future_error& ex) {
+                if (ex.code() == std::make_error_code(std::future_errc::no_state)) ++n;
+            }
+        }
+        return n;
+    }
     void final(std::vector<std::vector<long>>& out)
     {
         out.push_back({100, (long)cont->promiseByInteger.size(), (long)cont->promiseByString.size(),
-                       (long)cont->usedPromiseByInteger.size(), (long)cont->usedPromiseByString.size()});
-        cont.reset();  // ~DelayedObjects on the driver thread (not scheduled, not logged)
+                       (long)cont->usedPromiseByInteger.size(), (long)cont->usedPromiseByString.size(),
+                       vs::plan().calls});
+        const long st = count_stale(cont->promiseByInteger) + count_stale(cont->promiseByString);
+        if (st > 0) {
+            // ~DelayedObjects would call set_value on a moved-from promise: std::future_error in a
+            // destructor = std::terminate.  Report it and leave the container alone.
+            out.push_back({998, st});
+            (void)cont.release();
+        } else {
+            cont.reset();  // ~DelayedObjects on the driver thread (not scheduled, not logged)
+        }
         for (size_t t = 0; t < slots.size(); ++t)
             for (size_t i = 0; i < nslots; ++i) out.push_back({(long)t, (long)i, peek_get(slots[t][i])});
     }
